@@ -4,7 +4,7 @@
    of them beyond a normalised measurement -- which Measurement.get guarantees for every renderable. *)
 From RichModel Require Import Prelude Cells Segments Ratio Frames Layout SpecLayout.
 From RichModel Require Table Wrap SpecTable.
-From RichProofs Require Import CellsP SegmentsP RatioP TableP LayoutP LayoutP2 LayoutP3 LayoutP4 LayoutP5.
+From RichProofs Require Import CellsP SegmentsP RatioP TableP LayoutP LayoutP2 LayoutP8 LayoutP3 LayoutP4 LayoutP5.
 From Coq Require Import ZifyBool.
 
 Definition tbl_ok (t : tblspec) : bool :=
@@ -55,12 +55,13 @@ Proof.
   cbn [ro_overflow or_else]. destruct (ro_overflow ro) as [x|]; [intros ->; apply Hov; reflexivity|discriminate].
 Qed.
 
+(* at ANY width W: the table is at most max(W, borders + one cell per column) cells wide *)
 Theorem table_stream_fits cf t rows ro W :
   tbl_ok t = true -> ro_overflow ro <> Some Wrap.OV_IGNORE ->
-  Table.extra_width (tb_o t) (length (tb_cols t)) + zlen (tb_cols t) <= W ->
-  sfits W (table_stream t (table_cols cf t rows) ro W) /\ nlterm (table_stream t (table_cols cf t rows) ro W).
+  let B := Z.max W (Table.extra_width (tb_o t) (length (tb_cols t)) + zlen (tb_cols t)) in
+  sfits B (table_stream t (table_cols cf t rows) ro W) /\ nlterm (table_stream t (table_cols cf t rows) ro W).
 Proof.
-  intros Hok Hov HW. unfold tbl_ok in Hok.
+  intros Hok Hov B. unfold tbl_ok in Hok.
   repeat (apply andb_true_iff in Hok as [Hok ?]).
   rename H into Hcols, H0 into Hbox, H1 into Hne, H2 into Hminw, H3 into Hwidth. rename Hok into Hpad.
   set (cells := table_cols cf t rows). unfold table_stream. fold cells.
@@ -73,12 +74,10 @@ Proof.
   destruct (Table.o_minw (tb_o t)) eqn:Eom; [discriminate|].
   assert (Hcne : cols <> []).
   { intros Hc. rewrite Hc in Hlen. destruct (tb_cols t); [discriminate|discriminate]. }
-  assert (Hp : let '(t0, r, b, l) := Table.o_pad (tb_o t) in 0 <= r /\ 0 <= l).
-  { unfold nonneg4 in Hpad. destruct (Table.o_pad (tb_o t)) as [[[a b] c] d]. lia. }
-  destruct (calc_widths_fits (tb_o t) cols (W - Table.extra_width (tb_o t) (length cols)) ws Eow Eom Hcne
-              (table_tcols_free cf t rows Hcols) Hp) as [L1 [L2 [L3 _]]].
-  { unfold zlen in *. rewrite Hlen. lia. }
-  { exact Ew. }
+  assert (Hp : pad_ok (tb_o t)).
+  { unfold pad_ok. unfold nonneg4 in Hpad. destruct (Table.o_pad (tb_o t)) as [[[a b] c] d]. lia. }
+  destruct (calc_widths_bound (tb_o t) cols (W - Table.extra_width (tb_o t) (length cols)) ws Eom Hcne
+              (table_tcols_free cf t rows Hcols) Hp Ew) as [L1 [L2 L3]].
   assert (Hbx : box_agrees (tb_o t) (tb_boxc t)).
   { split.
     - apply Bool.eqb_prop in Hbox. exact Hbox.
@@ -92,10 +91,10 @@ Proof.
   destruct (table_rows_equal_width (tb_o t) (tb_boxc t) ws (table_rows t cells) Hbx Hwne Hw0 Hrows) as [ls [R1 [R2 _]]].
   rewrite R1.
   set (tw := sumZ ws + Table.extra_width (tb_o t) (length cols)).
-  assert (Htw : tw <= W) by (unfold tw; lia).
-  destruct (annotation_fits (tb_title t) ro tw W Htw Hov) as [A1 A2].
-  destruct (annotation_fits (tb_caption t) ro tw W Htw Hov) as [C1 C2].
-  assert (Hls : Forall (fun l => line_len l <= W) ls).
+  assert (Htw : tw <= B) by (unfold tw, B, zlen in *; rewrite Hlen in *; lia).
+  destruct (annotation_fits (tb_title t) ro tw B Htw Hov) as [A1 A2].
+  destruct (annotation_fits (tb_caption t) ro tw B Htw Hov) as [C1 C2].
+  assert (Hls : Forall (fun l => line_len l <= B) ls).
   { unfold SpecTable.expand_exact_b in R2. rewrite forallb_forall in R2. rewrite Forall_forall. intros l Hl.
     specialize (R2 (Table.line_text l) (in_map _ _ _ Hl)). rewrite TableP.cell_len_line_text in R2.
     rewrite L1 in R2. unfold tw in Htw. lia. }
